@@ -674,6 +674,25 @@ def install(world):
                                                True)
 
     def b_map(it, node, fn, *xs):
+        if len(xs) == 1 and isinstance(xs[0], S.SIter):
+            # a lazy view over a one-shot iterator: the element-wise image
+            # of what is left of it; pulling the view pulls the parent
+            world.trusted_used.add('map (T-lazy): element-wise image')
+            src = xs[0]
+            q = src.remaining()
+            k = z3.Int(S.fresh_name('k'))
+            was = it.spec
+            it.spec = True
+            try:
+                body = it.call(fn, [q.elem.wrap(q.at(k))], {}, node)
+            finally:
+                it.spec = was
+            t = S.type_of(body)
+            if t is None or isinstance(t, TSeq):
+                raise Unsupported('map body %r' % (body,))
+            view = SSeq(q.length, z3.Lambda([k], t.unwrap(body)), t,
+                        kind='iter')
+            return S.SIter(view, parent=src)
         seqs = [_as_seq(world, it, x) for x in xs]
         if all(isinstance(q, (tuple, list)) for q in seqs):
             n = min(len(q) for q in seqs)
